@@ -14,6 +14,6 @@ ASSUMPTIONS = ["window sizes are bounded (len <= 6 quick, <= 8 thorough); the lo
 
 def run(F, rep):
     rep.engines.update(["E2-DT", "affine", "E1"])
-    dt_msp.minpos_order_tables(F, rep, "C07.1")
-    dt_msp.scan_tables(F, rep, "C07.2")
-    dt_msp.cast_guards(F, rep, "C07.6")
+    rep.run(dt_msp.minpos_order_tables, F, rep, "C07.1")
+    rep.run(dt_msp.scan_tables, F, rep, "C07.2")
+    rep.run(dt_msp.cast_guards, F, rep, "C07.6")
